@@ -27,7 +27,28 @@ SPEC = json.loads(os.environ.get("VQ_SPEC", "null")) or {
     "rule": "ruleDateTOD", "args": [["art", "T:year,month,day"], ["art", "T:hour,minute"]],
     "allowed": ["T:year,month,day,hour,minute"]}
 RULE = SPEC["rule"]
-WRAPPER = REG[RULE][0]
+
+
+def _acc(ts, a):
+    """WF-ACC: the accessors of a well-formed value never raise"""
+    a.start
+    a.end
+    for e in ([a] if isinstance(a, Time) else [a.t_from, a.t_to]):
+        if e is not None and e.year is not None and e.month is not None and e.day is not None:
+            e.dt
+    return None
+
+
+def _latent(ts, a):
+    """LATENT-WF: post-processing maps WF to WF and keeps the span"""
+    from vq.harness.common import PL
+    r = PL.apply_postprocessing_rules(ts, a)
+    if r is a:
+        return None
+    return r
+
+
+WRAPPER = {"@acc": _acc, "@latent": _latent}[RULE] if RULE.startswith("@") else REG[RULE][0]
 ALLOWED = set(SPEC["allowed"])
 YEARS = SPEC.get("years")          # None -> whole WF range
 MAXDUR = SPEC.get("maxdur", 10 ** 4)
